@@ -67,12 +67,12 @@ theorem RingsPts_cons (r : List Pt) (rs : List (List Pt)) (y : Pt) :
 /-! ### Point × Polygon -/
 
 /-- `Polygon: Intersects<Coord>` of a valid polygon: the point is in the closed polygon -/
-theorem polyCoordIntersects_iff {q : Poly} (hv : polyValid q = true) (p : Pt) :
+theorem polyCoordIntersects_iff {q : Poly} (hv : PolyOk q) (p : Pt) :
     polyCoordIntersects q p = true ↔ PolyPts q p := by
   have hc : coordPos (.polygon q) p = (calcPolygon q p ⟨false, 0⟩).result := by
     simp only [coordPos, calcPos]
   unfold polyCoordIntersects PolyPts
-  rw [← hc, Geo.Proofs.WIND.coordPos_polygon_valid_full q p hv]
+  rw [← hc, hv.pos p]
   simp
 
 /-- finding K4 excluded on the hole rings: the tolerance test of `line_string_contains_point` has no
@@ -145,9 +145,9 @@ theorem ptPoly2_finite (p : Pt) {q : Poly} (hok : RingsOK q) : ∃ m, ptPoly2 p 
 
 /-- **Point × Polygon is the true minimum distance to the closed polygon** (valid polygon; K4 excluded
 on the hole rings) -/
-theorem ptPoly2_IsMinDist {p : Pt} {q : Poly} (hv : polyValid q = true) (hT : HolesTolOk p q) :
+theorem ptPoly2_IsMinDist {p : Pt} {q : Poly} (hv : PolyOk q) (hT : HolesTolOk p q) :
     ∃ m, ptPoly2 p q = .fin m ∧ IsMinDist (· = p) (PolyPts q) m := by
-  have hok := RingsOK_of_valid hv
+  have hok := hv.ok
   obtain ⟨m, hm⟩ := ptPoly2_finite p hok
   refine ⟨m, hm, ?_⟩
   by_cases hi : polyCoordIntersects q p = true
@@ -160,7 +160,7 @@ theorem ptPoly2_IsMinDist {p : Pt} {q : Poly} (hv : polyValid q = true) (hT : Ho
     exact hi ((polyCoordIntersects_iff hv x).mpr hx)
 
 /-- **zero exactly for the points of the closed polygon** -/
-theorem ptPoly2_zero_iff {p : Pt} {q : Poly} (hv : polyValid q = true) (hT : HolesTolOk p q) :
+theorem ptPoly2_zero_iff {p : Pt} {q : Poly} (hv : PolyOk q) (hT : HolesTolOk p q) :
     ptPoly2 p q = .fin 0 ↔ PolyPts q p := by
   constructor
   · intro h0
@@ -185,9 +185,9 @@ theorem lsLine_of_common {r : List Pt} {a b x : Pt} (h1 : SegMem x a b) (h2 : Ls
   exact (lsLineIntersects_iff r a b).mpr ⟨se, hse, (lineLine_iff _ _ _ _).mpr ⟨x, hx, h1⟩⟩
 
 /-- `Polygon: Intersects<Line>` of a valid polygon: the closed segment has a point in the closed polygon -/
-theorem polyLineIntersects_iff {q : Poly} (hv : polyValid q = true) (a b : Pt) :
+theorem polyLineIntersects_iff {q : Poly} (hv : PolyOk q) (a b : Pt) :
     polyLineIntersects q a b = true ↔ ∃ x, SegMem x a b ∧ PolyPts q x := by
-  have hok := RingsOK_of_valid hv
+  have hok := hv.ok
   unfold polyLineIntersects
   simp only [Bool.or_eq_true, List.any_eq_true]
   constructor
@@ -214,9 +214,9 @@ theorem linePoly2_finite (a b : Pt) {q : Poly} (hok : RingsOK q) : ∃ m, linePo
   · exact foldMin_finite (List.cons_ne_nil _ _) (fun r hr => lineLs2_finite a b (RingOK_segs (hok r hr)))
 
 /-- **Line × Polygon is the true minimum distance between the closed segment and the closed polygon** -/
-theorem linePoly2_poly_IsMinDist {a b : Pt} {q : Poly} (hv : polyValid q = true) :
+theorem linePoly2_poly_IsMinDist {a b : Pt} {q : Poly} (hv : PolyOk q) :
     ∃ m, linePoly2 a b q = .fin m ∧ IsMinDist (fun x => SegMem x a b) (PolyPts q) m := by
-  have hok := RingsOK_of_valid hv
+  have hok := hv.ok
   obtain ⟨m, hm⟩ := linePoly2_finite a b hok
   refine ⟨m, hm, ?_⟩
   by_cases hi : polyLineIntersects q a b = true
@@ -236,7 +236,7 @@ theorem IsMinDist_zero_common {A B : Pt → Prop} (h : IsMinDist A B 0) : ∃ x,
   rw [(dist2_eq_zero_iff x y).mp e.symm] at hx
   exact ⟨y, hx, hy⟩
 
-theorem linePoly2_zero_iff_common {a b : Pt} {q : Poly} (hv : polyValid q = true) :
+theorem linePoly2_zero_iff_common {a b : Pt} {q : Poly} (hv : PolyOk q) :
     linePoly2 a b q = .fin 0 ↔ ∃ x, SegMem x a b ∧ PolyPts q x := by
   obtain ⟨m, hm, hmin⟩ := linePoly2_poly_IsMinDist (a := a) (b := b) hv
   constructor
@@ -251,15 +251,15 @@ theorem linePoly2_zero_iff_common {a b : Pt} {q : Poly} (hv : polyValid q = true
 /-! ### LineString × Polygon -/
 
 /-- the closed polygon lies in the bounding box of its exterior ring -/
-theorem PolyPts_in_bbox {q : Poly} (hv : polyValid q = true) {x : Pt} (hx : PolyPts q x) :
+theorem PolyPts_in_bbox {q : Poly} (hv : PolyOk q) {x : Pt} (hx : PolyPts q x) :
     ∀ mn mx, getBoundingRect q.ext = some (mn, mx) → mn.x ≤ x.x ∧ x.x ≤ mx.x ∧ mn.y ≤ x.y ∧ x.y ≤ mx.y := by
-  rcases PolyPts_in_shell hv hx with h | h
+  rcases hv.shell _ hx with h | h
   · exact LsPts_in_bbox h
-  · exact winding_in_bbox (RingsOK_of_valid hv q.ext List.mem_cons_self).1 h
+  · exact winding_in_bbox (hv.ok q.ext List.mem_cons_self).1 h
 
 /-- `LineString: Intersects<Polygon>` of a valid polygon (with its bounding-box rejection): the line
 string has a point in the closed polygon -/
-theorem lsPolyIntersects_iff {q : Poly} (hv : polyValid q = true) (cs : List Pt) :
+theorem lsPolyIntersects_iff {q : Poly} (hv : PolyOk q) (cs : List Pt) :
     lsPolyIntersects cs q = true ↔ ∃ x, LsPts cs x ∧ PolyPts q x := by
   unfold lsPolyIntersects
   constructor
@@ -309,9 +309,9 @@ theorem ringContainsCoord_iff {r : List Pt} (hr : RingOK r) {c : Pt} (hoff : ¬ 
 polygon** (valid polygon, line string with a segment): zero through `intersects` when they share a
 point; otherwise the exterior ring is the nearest part of the polygon, or — line string inside the
 exterior ring of a polygon with holes — the hole rings are. -/
-theorem lsPoly2_poly_IsMinDist {cs : List Pt} {q : Poly} (hv : polyValid q = true) (hc : segs cs ≠ []) :
+theorem lsPoly2_poly_IsMinDist {cs : List Pt} {q : Poly} (hv : PolyOk q) (hc : segs cs ≠ []) :
     ∃ m, lsPoly2 cs q = .fin m ∧ IsMinDist (LsPts cs) (PolyPts q) m := by
-  have hok := RingsOK_of_valid hv
+  have hok := hv.ok
   have hoke := hok q.ext List.mem_cons_self
   obtain ⟨m, hm⟩ := lsPoly2_finite hc hok
   refine ⟨m, hm, ?_⟩
@@ -345,7 +345,7 @@ theorem lsPoly2_poly_IsMinDist {cs : List Pt} {q : Poly} (hv : polyValid q = tru
     have hxw : windingE (EPt.ofPt x) h0 ≠ 0 := by
       rw [ls_winding_const hokh.1 (hnoH h0 hh0) x _ hx hhead]; exact hw0
     obtain ⟨z, hz1, hz2⟩ := ring_cross' hokh.1 (x := x) (y := y) (by
-      rcases PolyPts_not_in_hole hv hh0 hy with h | h
+      rcases hv.hole _ hh0 _ hy with h | h
       · exact Or.inl h
       · right; rw [h]; exact hxw)
     exact ⟨z, hz1, h0, hh0, hz2⟩
@@ -370,11 +370,11 @@ theorem lsPoly2_poly_IsMinDist {cs : List Pt} {q : Poly} (hv : polyValid q = tru
       have hxw : windingE (EPt.ofPt x) q.ext = 0 := by
         rw [ls_winding_const hoke.1 hnoE x _ hx hhead]; exact hw0
       exact ring_cross' hoke.1 (x := x) (y := y) (by
-        rcases PolyPts_in_shell hv hy with h | h
+        rcases hv.shell _ hy with h | h
         · exact Or.inl h
         · right; rw [hxw]; exact fun e => h e.symm)
 
-theorem lsPoly2_zero_iff_common {cs : List Pt} {q : Poly} (hv : polyValid q = true) (hc : segs cs ≠ []) :
+theorem lsPoly2_zero_iff_common {cs : List Pt} {q : Poly} (hv : PolyOk q) (hc : segs cs ≠ []) :
     lsPoly2 cs q = .fin 0 ↔ ∃ x, LsPts cs x ∧ PolyPts q x := by
   obtain ⟨m, hm, hmin⟩ := lsPoly2_poly_IsMinDist hv hc
   constructor
